@@ -212,5 +212,52 @@ def scale_payoffs(t, c):
 def tiny_unit(rng, t):
     """the same game in a far-out payoff unit (exact power of two): every rule of the solvers is homogeneous in the
     payoffs, so absolute tolerances hidden in the code (|x| <= f64::EPSILON treated as zero) show here"""
-    c = 2.0 ** rng.choice([-70, -70, -200, -40, 150])
+    c = 2.0 ** rng.choice([-70, -70, -200, -40, 150, -1040])      # the last one: subnormal payoffs
     return scale_payoffs(t, c), c
+
+
+def with_duplicate_action(rng, t):
+    """the same game with one more action at some decision node whose infoset occurs only there: a copy of an
+    existing action (identical subtree), so the two have exactly equal value in every iteration -- an exact tie"""
+    import copy
+    count = {}
+
+    def scan(n):
+        if "a" in n:
+            count[(n["p"], n["i"])] = count.get((n["p"], n["i"]), 0) + 1
+            for _, c in n["a"]:
+                scan(c)
+        elif "o" in n:
+            for _, c in n["o"]:
+                scan(c)
+    scan(t)
+    t2 = copy.deepcopy(t)
+    cands = []
+
+    def collect(n):
+        if "a" in n:
+            if count[(n["p"], n["i"])] == 1 and len(n["a"]) >= 2:
+                cands.append(n)
+            for _, c in n["a"]:
+                collect(c)
+        elif "o" in n:
+            for _, c in n["o"]:
+                collect(c)
+    collect(t2)
+    if not cands:
+        return None
+    n = rng.choice(cands)
+    a, sub = rng.choice(n["a"])
+    new_label = max(x for x, _ in n["a"]) + 7
+    # the copy must not contain decisions of the same player again under the same labels (perfect recall would break):
+    # copy only subtrees without further decisions of that player
+    def has_own(m, pl):
+        if "a" in m:
+            return m["p"] == pl or any(has_own(c, pl) for _, c in m["a"])
+        if "o" in m:
+            return any(has_own(c, pl) for _, c in m["o"])
+        return False
+    if has_own(sub, n["p"]):
+        return None
+    n["a"].append([new_label, copy.deepcopy(sub)])
+    return t2
